@@ -1365,6 +1365,11 @@ def kernel_coverage(crate):
                 # partner, ...): which words it visits is not decided here
                 unmodelled.append("words written through `%s`" % show(w.index[1])[:70])
                 continue
+            if w.index is not None and w.index[0] == "var" and len(w.index) > 2 and b.locals[w.index[2]].get("user") and b.locals[w.index[2]].get("mut") \
+                    if w.index is not None and w.index[0] == "var" and len(w.index) > 2 and w.index[2] < len(b.locals) else False:
+                # indexed by a hand-maintained counter (`while i < n { .. i += 1 }`): its range is not extracted
+                unmodelled.append("words indexed by the counter `%s` of a while loop" % w.index[1])
+                continue
             if w.index is None or w.index[0] != "iv":
                 other.append("write not indexed by a loop variable: %s" % show(w.target)[:60])
                 continue
